@@ -1007,3 +1007,130 @@ def peel_zip_loops(repo):
         if fn is not None:
             n += peel_zip_first_argument_in(fn)
     return n
+
+
+# ------------------------------------------------------------------------------------------------
+# named conditions:  `ends_before_last = (t - self.t_eval[-1]) < 0`  ...  `if ends_before_last:`   ->   `if (t - self.t_eval[-1]) < 0:`
+NAMED_CONDITION_MODULES = ["desolver/differential_system.py", "desolver/integrators/integrator_types.py", "desolver/integrators/integrator_template.py",
+                           "desolver/utilities/optimizer.py", "desolver/utilities/utilities.py", "desolver/utilities/interpolation.py"]
+
+
+def _is_condition_expr(v):
+    if isinstance(v, (ast.Compare, ast.BoolOp)):
+        return True
+    if isinstance(v, ast.UnaryOp) and isinstance(v.op, ast.Not):
+        return True
+    if isinstance(v, ast.Call) and isinstance(v.func, ast.Name) and v.func.id in ("isinstance", "callable", "hasattr", "issubclass", "bool", "any", "all"):
+        return True
+    return False
+
+
+def expand_named_conditions_in(fn):
+    """A read of a local whose every binding is a boolean expression (comparison, and/or/not, isinstance/hasattr/...) is replaced by the expression of the binding that
+    reaches it -- the latest binding before the read, in a block enclosing the read, with no other binding of the name in between -- provided nothing between that
+    binding and the read can change what the expression evaluates to: no store to a name or attribute the expression reads, no item store, no call (other than pure
+    builtins) when the expression reads attributes.  Reads that do not qualify are left alone (and keep their binding).  Returns the number of reads rewritten."""
+    total = 0
+    for _ in range(3):
+        defs = {}
+        other_stores = set()
+        for n in ast.walk(fn):
+            if isinstance(n, ast.Assign) and len(n.targets) == 1 and isinstance(n.targets[0], ast.Name) and _is_condition_expr(n.value):
+                defs.setdefault(n.targets[0].id, []).append(n)
+        for n in ast.walk(fn):
+            if isinstance(n, ast.Name) and isinstance(n.ctx, (ast.Store, ast.Del)) and n.id in defs and not any(d.targets[0] is n for d in defs[n.id]):
+                other_stores.add(n.id)
+        done = 0
+        for name, dlist in list(defs.items()):
+            if name in other_stores or any(enclosing_function_of(d) is not fn for d in dlist):
+                continue
+            uses = [n for n in ast.walk(fn) if isinstance(n, ast.Name) and n.id == name and isinstance(n.ctx, ast.Load)]
+            if not uses or any(enclosing_function_of(u) is not fn for u in uses):
+                continue
+            for u in uses:
+                upos = (u.lineno, u.col_offset)
+                anc = list(_ancestors(u, None))
+                cands = [d for d in dlist if (d.end_lineno, d.end_col_offset) < upos and any(d._parent is a for a in anc)]
+                if not cands:
+                    continue
+                st = max(cands, key=lambda d: (d.lineno, d.col_offset))
+                end_def = (st.end_lineno, st.end_col_offset)
+                if any(end_def < (d.lineno, d.col_offset) < upos for d in dlist if d is not st):
+                    continue        # another binding of the name lies between (in some branch): the reaching definition is not unique
+                if any(isinstance(a, (ast.For, ast.While)) and not any(x is st for x in ast.walk(a)) for a in _ancestors(u, fn)):
+                    continue        # read inside a loop the binding is outside of
+                reads_names = {x.id for x in ast.walk(st.value) if isinstance(x, ast.Name)}
+                reads_attrs = {x.attr for x in ast.walk(st.value) if isinstance(x, ast.Attribute)}
+                reads_items = any(isinstance(x, ast.Subscript) for x in ast.walk(st.value)) or any(
+                    isinstance(x, ast.Call) and isinstance(x.func, ast.Attribute) and x.func.attr == "get" for x in ast.walk(st.value))
+                ok = True
+                stmt_u = u
+                while not isinstance(stmt_u, ast.stmt):
+                    stmt_u = stmt_u._parent
+                own_targets = set()
+                if isinstance(stmt_u, (ast.Assign, ast.AugAssign, ast.AnnAssign)):     # the targets of the reading statement are stored AFTER its value is evaluated
+                    for t_ in (stmt_u.targets if isinstance(stmt_u, ast.Assign) else [stmt_u.target]):
+                        own_targets |= {id(x) for x in ast.walk(t_)}
+                for b in ast.walk(fn):
+                    pos = (getattr(b, "lineno", None), getattr(b, "col_offset", None))
+                    if pos[0] is None or not (end_def < pos < upos) or id(b) in own_targets:
+                        continue
+                    if isinstance(b, ast.Name) and isinstance(b.ctx, (ast.Store, ast.Del)) and b.id in reads_names:
+                        ok = False
+                    elif isinstance(b, ast.Attribute) and isinstance(b.ctx, (ast.Store, ast.Del)) and b.attr in reads_attrs:
+                        ok = False
+                    elif isinstance(b, ast.Subscript) and isinstance(b.ctx, (ast.Store, ast.Del)) and (reads_items or reads_attrs):
+                        ok = False
+                    elif isinstance(b, ast.Call) and (reads_attrs or reads_items) and not (isinstance(b.func, ast.Name) and b.func.id in (
+                            "isinstance", "callable", "hasattr", "len", "bool", "issubclass")) and b is not u._parent:
+                        ok = False      # a call between binding and read may change the attributes / items the condition reads
+                    if not ok:
+                        break
+                if not ok:
+                    continue
+                new = _clone(st.value)
+                for x in ast.walk(new):
+                    for a_ in ("lineno", "col_offset", "end_lineno", "end_col_offset"):
+                        if hasattr(u, a_):
+                            setattr(x, a_, getattr(u, a_))
+                par = u._parent
+                for f_, val in ast.iter_fields(par):
+                    if val is u:
+                        setattr(par, f_, new)
+                    elif isinstance(val, list):
+                        for i_, x in enumerate(val):
+                            if x is u:
+                                val[i_] = new
+                _annotate(new, par)
+                done += 1
+            # bindings nobody reads any more are dropped
+            left = [n for n in ast.walk(fn) if isinstance(n, ast.Name) and n.id == name and isinstance(n.ctx, ast.Load)]
+            if not left:
+                for st in dlist:
+                    blk = st._parent
+                    for f_, val in ast.iter_fields(blk):
+                        if isinstance(val, list) and any(x is st for x in val):
+                            val[:] = [x for x in val if x is not st] or [ast.copy_location(ast.Pass(), st)]
+        total += done
+        if not done:
+            break
+    return total
+
+
+def _ancestors(node, stop):
+    p_ = getattr(node, "_parent", None)
+    while p_ is not None and (stop is None or p_ is not stop):
+        yield p_
+        p_ = getattr(p_, "_parent", None)
+
+
+def expand_named_conditions(repo):
+    n = 0
+    for rel in NAMED_CONDITION_MODULES:
+        mod = repo.modules.get(rel)
+        if mod is None:
+            continue
+        for q, fn in list(mod.index.items()):
+            if isinstance(fn, (ast.FunctionDef, ast.AsyncFunctionDef)):
+                n += expand_named_conditions_in(fn)
+    return n
